@@ -127,7 +127,10 @@ def gen_mode_case(rng):
     shape, n = gen_counts(rng)
     start = rng.randint(-64, 64) / 8.0
     w = rng.randint(1, 5) * 2.0 ** -rng.randint(0, 4)
-    bins = [start + i * w for i in range(len(n) + 1)]
+    sc = rng.choice([1.0] * 6 + mc.SCALES)          # histograms of data of size 1e-9, 1e-12, 1e9 as well
+    if rng.random() < 0.05:
+        start += 2.0 ** 30                          # narrow histogram far from the origin
+    bins = [(start + i * w) * sc for i in range(len(n) + 1)]
     return {"shape": shape, "n": n, "bins": [fx(b) for b in bins], "conf": fx(gen_conf(rng, sum(n)))}
 
 
@@ -154,7 +157,8 @@ def run_find_mode(case):
 
 def coq_mode_case(case, ob, intern):
     obs = "(Some ({}, {}))".format(mc.cq(ob[1]), mc.cq(ob[2])) if ob[0] == "ok" else "None"
-    return "({}, {}, {}, {})".format(intern(coq_list([zlit(x) for x in case["n"]])),
+    m = max([abs(float.fromhex(b)) for b in case["bins"]] + [0.0]) or 1.0
+    return "({}, {}, {}, {}, {})".format(mc.coq_atol(m), intern(coq_list([zlit(x) for x in case["n"]])),
                                      intern(coq_list([mc.cq(b) for b in case["bins"]])), mc.cq(case["conf"]), obs)
 
 
@@ -190,7 +194,8 @@ def gen_hist_case(rng):
     else:
         xs = [rng.randint(-1000, 1000) / 64.0 + rng.choice([0.0, 1.0 / 3.0, 0.1]) for _ in range(N)]
         kind = "generic"
-    return {"kind": kind, "xs": [fx(x) for x in xs]}
+    sc = rng.choice([1.0] * 5 + mc.SCALES)
+    return {"kind": kind, "xs": [fx(x * sc) for x in xs]}
 
 
 def hist_case_ok(case):
@@ -211,8 +216,10 @@ def run_hist(case):
 # =====================================================================================================
 VALID_CONF = [["float", fx(1.0)], ["float", fx(0.5)], ["float", fx(0.75)], ["float", fx(0.25)], ["float", fx(0.875)],
               ["float", fx(0.9375)], ["float", fx(2.0 ** -10)], ["float", fx(0.0)], ["int", 1], ["int", 0], ["bool", True],
-              ["float", fx(0.625)], ["float", fx(0.3125)]]
-BAD_CONF = [["float", fx(1.5)], ["float", fx(-0.25)], ["str", "0.5"], ["none"], ["list", [["float", fx(0.5)]]], ["int", 2],
+              ["float", fx(0.625)], ["float", fx(0.3125)],
+              ["np", "float64", fx(0.5)], ["np", "float32", fx(0.75)], ["np", "float16", fx(0.25)], ["fraction", 1, 4],
+              ["fraction", 7, 8], ["np", "int64", 1]]
+BAD_CONF = [["decimal", "0.5"], ["np", "bool_", 1], ["np", "float64", fx(1.5)], ["fraction", 3, 2], ["float", fx(1.5)], ["float", fx(-0.25)], ["str", "0.5"], ["none"], ["list", [["float", fx(0.5)]]], ["int", 2],
             ["int", -1]]
 FALSY_CONF = [["int", 0], ["float", fx(0.0)], ["none"], ["str", ""], ["bool", False], ["tuple", []]]
 
@@ -230,20 +237,25 @@ def gen_range_args(rng, sess):
         lo0, hi0 = min(raw), max(raw)
     else:
         lo0, hi0 = -4.0, 4.0
-    span = max(hi0 - lo0, 0.5)
-    a = dy(rng, lo0 - 0.2 * span, lo0 + 0.6 * span)
-    b = dy(rng, a, hi0 + 0.2 * span)
-    if b < a:
-        a, b = b, a
+    span = hi0 - lo0
+    if span <= 0:
+        span = max(abs(lo0), 2.0 ** -40) / 2
+    grid = 2.0 ** (math.floor(math.log2(span)) - 4)       # boundaries on a dyadic grid matched to the size of the data
+    a = math.floor((lo0 - 0.2 * span) / grid + rng.randint(0, 13)) * grid
+    b = a + rng.randint(0, 20) * grid
     r = rng.random()
-    num = lambda x: ["float", fx(x)] if rng.random() < 0.8 or x != int(x) else ["int", int(x)]
+    def num(x):
+        r_ = rng.random()
+        if r_ < 0.1:
+            return ["np", "float64", fx(x)]
+        return ["float", fx(x)] if r_ < 0.8 or x != int(x) else ["int", int(x)]
     if r < 0.6:
         return [num(a), num(b)]
     if r < 0.72:
         return []
     if r < 0.76:       # a very narrow or empty window
-        c = dy(rng, lo0, hi0)
-        return [num(c), num(c + rng.choice([0.0, 0.0625]))]
+        c = math.floor(lo0 / grid + rng.randint(0, 16)) * grid
+        return [num(c), num(c + rng.choice([0.0, grid]))]
     if r < 0.8:
         return [num(a), num(b), ["int", 7]]
     bad = rng.randrange(6)
@@ -262,9 +274,11 @@ def gen_range_args(rng, sess):
 
 def gen_custom(rng):
     r = rng.random()
-    v = rng.choice([["float", fx(dy(rng, -8, 8))], ["int", rng.randint(-5, 5)], ["bool", True]])
+    v = rng.choice([["float", fx(dy(rng, -8, 8))], ["int", rng.randint(-5, 5)], ["bool", True],
+                    ["np", "float64", fx(dy(rng, -8, 8))], ["fraction", rng.randint(-9, 9), 4], ["np", "int32", rng.randint(-5, 5)]])
     if r < 0.65:
-        e = rng.choice([["float", fx(dy(rng, 0, 4))], ["int", rng.randint(0, 3)], ["float", fx(0.0)], ["bool", False]])
+        e = rng.choice([["float", fx(dy(rng, 0, 4))], ["int", rng.randint(0, 3)], ["float", fx(0.0)], ["bool", False],
+                        ["np", "float32", fx(dy(rng, 0, 4))], ["fraction", rng.randint(0, 9), 8]])
         return v, e
     bad = rng.randrange(4)
     if bad == 0:
@@ -278,7 +292,7 @@ def gen_custom(rng):
 
 OPS_W = [("read_value", 18), ("read_error", 14), ("set_conf", 8), ("set_range", 9), ("use_mode", 9), ("use_mean_std", 5),
          ("use_custom", 7), ("set_size", 7), ("reset_size", 2), ("recalc", 4), ("samples", 6), ("inspect", 5), ("mutate", 4),
-         ("set_gsize", 2), ("set_src", 3)]
+         ("set_gsize", 2), ("set_src", 3), ("sibling", 2)]
 
 
 TINY_W = [("read_value", 20), ("read_error", 12), ("recalc", 10), ("set_size", 8), ("reset_size", 4), ("samples", 8),
@@ -293,7 +307,11 @@ def gen_op(rng, sess, case):
         return [t, ["int", rng.choice([0, 1, 2, 3])]]
     if case.get("tiny") and t == "set_gsize":
         return [t, rng.choice([1, 2, 3, 4])]
-    if t in ("read_value", "read_error", "use_mean_std", "reset_size", "recalc", "samples", "inspect"):
+    if case["ops"] and rng.random() < 0.08:
+        prev = case["ops"][-1]              # the same request (valid or invalid) offered twice in a row
+        if prev[0] != "mutate":
+            return list(prev)
+    if t in ("read_value", "read_error", "use_mean_std", "reset_size", "recalc", "samples", "inspect", "sibling"):
         return [t]
     if t == "set_conf":
         return [t, rng.choice(VALID_CONF) if rng.random() < 0.7 else rng.choice(BAD_CONF)]
@@ -314,7 +332,8 @@ def gen_op(rng, sess, case):
     if t == "set_size":
         if rng.random() < 0.72:
             return [t, ["int", rng.choice([0, 1, 2, 3, 5, 8] if case.get("small") else [0, 1, 2, 3, 5, 8, 16, 33, 64])]]
-        return [t, rng.choice([["int", -1], ["float", fx(2.5)], ["str", "8"], ["none"], ["float", fx(8.0)]])]
+        return [t, rng.choice([["int", -1], ["float", fx(2.5)], ["str", "8"], ["none"], ["float", fx(8.0)],
+                               ["np", "float64", fx(8.0)], ["fraction", 8, 1], ["decimal", "8"]])]
     if t == "mutate":
         cands = [(j, len(a)) for j, a in enumerate(sess.handed) if len(a) > 0]
         if not cands:
@@ -331,20 +350,28 @@ def gen_op(rng, sess, case):
     raise ValueError(t)
 
 
+def as_fraction(x):
+    """exact value of a confidence level of any accepted number type"""
+    if isinstance(x, (Fraction, int)) and not isinstance(x, bool):
+        return Fraction(x)
+    return Fraction(float(x))
+
+
 def sensitive_now(sess, exact_formula):
     """rounding-sensitive situations that the exact model cannot be expected to reproduce"""
     raw = sess.raw()
     xr = sess.ev.settings.xrange
     if xr and not exact_formula:      # a sample within rounding distance of a range boundary
+        big = max([abs(x) for x in raw] + [0.0])
         for x in raw:
             for b in (float(xr[0]), float(xr[1])):
-                if abs(x - b) <= 1e-9 * (1.0 + abs(x)):
+                if abs(x - b) <= 1e-9 * max(big, abs(b)):
                     return "near-range-boundary"
     if sess.strategy() != "Mode":
         return None
     xs = [Fraction(x) for x in raw]
     conf = sess.ev.settings.confidence
-    conf_model = Fraction(17, 25) if (isinstance(conf, float) and conf == 0.68) else Fraction(conf)
+    conf_model = Fraction(17, 25) if (isinstance(conf, float) and conf == 0.68) else as_fraction(conf)
     if not mc.threshold_agrees(conf, conf_model, len(raw)):
         return "threshold"
     if raw:
@@ -362,7 +389,7 @@ def sensitive_now(sess, exact_formula):
 def gen_history_case(rng, seed, corr_profile=False):
     k = rng.choice([1, 1, 2, 2, 3])
     allow_div = rng.random() < 0.35
-    sources = [mc.gen_source(rng) for _ in range(k)]
+    sources, scaled = mc.gen_sources(rng, k)
     tiny = rng.random() < 0.15
     if tiny:    # sqrt of a value near 0 with 1-3 draws: whole simulations are undefined, the next one is not
         k = 1
@@ -374,7 +401,8 @@ def gen_history_case(rng, seed, corr_profile=False):
     case = {"seed": seed, "okind": rng.choice(mc.OFFSET_KINDS), "g": rng.choice([8, 12] if small else [8, 12, 16, 24, 32, 48]),
             "sources": sources, "corr": [], "small": small,
             "defs": mc.gen_defs(rng, k, allow_div=allow_div, depth=2 if small else 3),
-            "method": rng.choice(["global", "own"]), "ops": []}
+            "method": rng.choice(["global", "own", "global-str", "own-str"]), "ops": [], "pre_read": rng.random() < 0.3,
+            "dirty": rng.random() < 0.25}
     if tiny:
         case["defs"] = [rng.choice([["sqrtsq", ["var", 0]], ["add", ["sqrtsq", ["var", 0]], ["cst", fx(1.0)]],
                                     ["mul", ["sqrtsq", ["var", 0]], ["var", 0]]])]
@@ -385,12 +413,13 @@ def gen_history_case(rng, seed, corr_profile=False):
         case["okind"] = "coarse"
     exact_formula = not any(mc.tree_has(d, "div", case["defs"]) or mc.tree_has(d, "sqrtsq", case["defs"])
                             for d in case["defs"]) and \
-        all(s["kind"] == "single" for s in case["sources"])
+        all(s["kind"] == "single" for s in case["sources"]) and not scaled
     script = mc.Script(seed, case["okind"])
     obs, why = [], None
     with mc.patched_normal(script):
         try:
-            sess = mc.Session(case)
+            sess = mc.Session(case, script)
+            prelude = len(script.calls)
             for _ in range(rng.randint(5, 26)):
                 o = gen_op(rng, sess, case)
                 case["ops"].append(o)
@@ -401,7 +430,10 @@ def gen_history_case(rng, seed, corr_profile=False):
                     why = why or sensitive_now(sess, exact_formula)
         finally:
             mc.reset_globals()
-    run = {"obs": obs, "calls": script.calls, "order": sess.order, "pos": sess.pos, "srcs": sess.src_snapshot,
+    run0 = {"obs": obs, "srcs": sess.src_snapshot}
+    if not why and mc.ill_conditioned(case, run0):
+        why = "ill-conditioned"
+    run = {"obs": obs, "calls": script.calls[prelude:], "order": sess.order, "pos": sess.pos, "srcs": sess.src_snapshot,
            "corr": sess.corr_matrix}
     return case, run, why
 
@@ -426,6 +458,17 @@ def history_features(case, run):
         tags.add(o[0])
     if len(run["calls"]) > len(run["order"]):
         tags.add("redraw")
+    if case.get("pre_read") and len(case["defs"]) > 1:
+        tags.add("intermediate-read-before-use")
+    if case.get("dirty"):
+        tags.add("session-after-other-simulation")
+    big = max([abs(float.fromhex(v)) for v, _, _ in run["srcs"]] + [0.0])
+    if big and (big < 1e-6 or big > 1e6):
+        tags.add("scaled-data")
+    for o in case["ops"]:
+        if any(isinstance(a, list) and a and a[0] in ("np", "fraction", "decimal") for a in o[1:]) or \
+                (o[0] == "set_range" and any(a[0] in ("np", "fraction", "decimal") for a in o[1])):
+            tags.add("numpy/Fraction/Decimal-argument")
     return tags
 
 
@@ -479,7 +522,9 @@ def correspondence(ctx):
         res.evaluations += 1
         res.count("hist:" + c["kind"])
     for k in range(0, len(hist_cases), 50):
-        body = coq_list(["({}, {}, {})".format(coq_list([mc.cq(x) for x in c["xs"]]), coq_list([zlit(v) for v in n]),
+        body = coq_list(["({}, {}, {}, {})".format(
+            mc.coq_atol(max([abs(float.fromhex(x)) for x in c["xs"]] + [0.0]) or 1.0),
+            coq_list([mc.cq(x) for x in c["xs"]]), coq_list([zlit(v) for v in n]),
                                                coq_list([mc.cq(e) for e in edges]))
                          for c, (n, edges) in zip(hist_cases[k:k + 50], hist_obs[k:k + 50])])
         shards.append(mc.HEADER + "Definition cases := {}.\nEval vm_compute in (bad_indices check_hist cases).\n".format(body))
@@ -635,8 +680,9 @@ def exact_mean_var(xs):
     return m, sum((x - m) ** 2 for x in xs) / (n - 1)
 
 
-def close(a, b, tol=Fraction(1, 10 ** 8)):
-    return abs(a - b) <= tol * (abs(a) + abs(b)) + Fraction(1, 10 ** 11)
+def close(a, b, tol=Fraction(1, 10 ** 8), scale=Fraction(1)):
+    """relative comparison; the absolute slack is tied to the size of the data ([scale]), never a fixed number"""
+    return abs(a - b) <= tol * (abs(a) + abs(b)) + tol * scale / 1000
 
 
 def check_reported(sess, S):
@@ -649,52 +695,62 @@ def check_reported(sess, S):
     except TimeoutError:
         return "reading value / error does not return (strategy {}, confidence {})".format(
             sess.ev.settings.strategy, sess.ev.settings.confidence)
+    except ValueError as ex:
+        if "Too many bins" in str(ex):
+            # a sample set only a few ulps wide (e.g. 2^30 + tiny spread): 100 equal-width bins do not exist in double
+            # precision, numpy refuses; outside what the property can mean by "100 equal-width histogram bins"
+            return None
+        raise
     same = lambda a, b: (mc.num_obs(a) == mc.num_obs(b))
     if not (same(v1, v2) and same(e1, e2)):
         return "repeated reads differ: ({}, {}) then ({}, {})".format(v1, e1, v2, e2)
     m = r.mc
     strat, conf, xr = mc.STRAT[m.strategy], m.confidence, m.xrange
     xs = [Fraction(float(x)) for x in S]
+    sc = max([abs(x) for x in xs] + [Fraction(0)]) or Fraction(1)
     v, e = mc.num_obs(v1), mc.num_obs(e1)
     if strat == "Custom":
         if sess.tracker.custom is None:
             return "custom strategy reports ({}, {}) although no custom pair is in force".format(v1, e1)
         cv, ce = sess.tracker.custom
-        if v is None or e is None or fr(v) != Fraction(cv) or fr(e) != Fraction(ce):
+        if v is None or e is None or fr(v) != Fraction(float(cv)) or fr(e) != Fraction(float(ce)):
             return "custom pair ({}, {}) was set but ({}, {}) is reported".format(cv, ce, v1, e1)
         return None
     if strat == "MeanStd":
         if xr:
             xs = [x for x in xs if Fraction(xr[0]) <= x <= Fraction(xr[1])]
         mean, var = exact_mean_var(xs)
-        if (mean is None) != (v is None) or (mean is not None and not close(fr(v), mean)):
+        if (mean is None) != (v is None) or (mean is not None and not close(fr(v), mean, scale=sc)):
             return "value {} is not the mean {} of the {} retrievable samples{}".format(
                 v1, None if mean is None else float(mean), len(xs), " inside the range {}".format(xr) if xr else "")
-        if (var is None) != (e is None) or (var is not None and not close(fr(e) ** 2, var, Fraction(1, 10 ** 7))):
+        if (var is None) != (e is None) or (var is not None and not close(fr(e) ** 2, var, Fraction(1, 10 ** 7), sc * sc)):
             return "uncertainty {} is not the sample standard deviation {} (ddof=1) of the {} retrievable samples{}".format(
                 e1, None if var is None else math.sqrt(var), len(xs), " inside the range {}".format(xr) if xr else "")
         return None
     # mode: numpy's own histogram of the retrieved samples, brute force over k
     arr = np.array([float(x) for x in S], dtype=float)
-    n, bins = np.histogram(arr, bins=100)
+    try:
+        n, bins = np.histogram(arr, bins=100)
+    except ValueError:
+        return None
     n = [int(c) for c in n]
-    cf = Fraction(conf)
+    cf = as_fraction(conf)
     if not mc.threshold_agrees(conf, cf, sum(n)):
         return None
     mm, k = mc.brute_mode(n, cf)
     centre = (Fraction(float(bins[mm])) + Fraction(float(bins[mm + 1]))) / 2
     w = Fraction(float(bins[mm + 1])) - Fraction(float(bins[mm]))
-    if v is None or not close(fr(v), centre):
+    if v is None or not close(fr(v), centre, scale=sc):
         return "mode strategy: value {} is not the centre {} of the fullest histogram bin ({}) of the retrievable samples".format(
             v1, float(centre), mm)
-    if e is None or not close(fr(e), k * w):
+    if e is None or not close(fr(e), k * w, scale=sc):
         return ("mode strategy: uncertainty {} is not {} bin widths ({}), the smallest number around bin {} holding {} of the "
                 "{} samples".format(e1, k, float(k * w), mm, float(conf), sum(n)))
     return None
 
 
 PRESERVING = {"read_value", "read_error", "set_conf", "set_range", "use_mode", "use_mean_std", "use_custom", "samples",
-              "inspect", "mutate", "set_gsize"}
+              "inspect", "mutate", "set_gsize", "sibling"}
 
 
 def check_history_oracle(case, total_formula=None):
@@ -709,25 +765,32 @@ def _check_history_oracle(case, total_formula=None):
     script = mc.Script(case["seed"], case["okind"])
     with mc.patched_normal(script):
         try:
-            sess = mc.Session(case)
+            sess = mc.Session(case, script)
             sess.tracker = Tracker()
             k = len(sess.order)
             if total_formula is None:
                 total_formula = not any(mc.tree_has(d, "div", case["defs"]) or mc.tree_has(d, "sqrtsq", case["defs"])
                                         for d in case["defs"])
-            S_prev, calls_prev, expect_redraw = None, 0, True
+            S_prev, calls_prev, expect_redraw = None, len(script.calls), True
             size_at_draw = None
+            import qexpy as q
+            own_expected = 0            # the per-quantity size the USER configured (0 = none): tracked here, not read back
+            glob_expected = q.get_settings().monte_carlo_sample_size
             for idx, o in enumerate(case["ops"]):
                 # the size a redraw triggered by this operation will use
-                own = sess.ev.settings._MonteCarloSettings__settings["monte_carlo_sample_size"]
-                import qexpy as q
-                eff_before = own if own else q.get_settings().monte_carlo_sample_size
+                eff_before = own_expected if own_expected else glob_expected
                 if o[0] == "mutate" and (o[1] >= len(sess.handed) or o[2] >= len(sess.handed[o[1]])):
                     continue
                 ob, wpd, w10 = sess.step(o)
                 if ob == ["exn", "Timeout"]:
                     return "step {} {}: the call does not return".format(idx, o)
                 ok = ob[0] != "exn"
+                if o[0] == "set_size" and ok:
+                    own_expected = pv_num(o[1])
+                elif o[0] == "reset_size":
+                    own_expected = 0
+                elif o[0] == "set_gsize":
+                    glob_expected = o[1]
                 if o[0] == "use_custom":
                     if ok:
                         sess.tracker.custom = (pv_num(o[1]), pv_num(o[2]))
@@ -748,10 +811,18 @@ def _check_history_oracle(case, total_formula=None):
                 if o[0] in ("recalc", "reset_size") or (o[0] == "set_size" and ok):
                     if not drew:
                         return "step {} {}: no new samples were drawn".format(idx, o)
-                    g_now = q.get_settings().monte_carlo_sample_size
-                    want = (pv_num(o[1]) or g_now) if o[0] == "set_size" else (g_now if o[0] == "reset_size" else eff_before)
+                    want = own_expected if own_expected else glob_expected
                     if total_formula and len(S) != want:
-                        return "step {} {}: {} samples retrieved, configured size is {}".format(idx, o, len(S), want)
+                        return ("step {} {}: {} samples retrieved, configured size is {} ({}, global size {})".format(
+                            idx, o, len(S), want,
+                            "per-quantity size {}".format(own_expected) if own_expected else "no per-quantity size",
+                            glob_expected))
+                    shown = sess.res.mc.sample_size
+                    if shown != want:
+                        return "step {} {}: mc.sample_size reads {}, configured size is {} ({}, global size {})".format(
+                            idx, o, shown, want,
+                            "per-quantity size {}".format(own_expected) if own_expected else "no per-quantity size",
+                            glob_expected)
                     if calls_now - calls_prev < k:
                         return "step {} {}: fewer than {} source draws".format(idx, o, k)
                 why = check_reported(sess, S)
@@ -771,6 +842,8 @@ def pv_num(j):
         return float.fromhex(j[1])
     if j[0] == "bool":
         return int(j[1])
+    if j[0] in ("np", "fraction", "decimal"):
+        return mc.to_py(j)
     return j[1]
 
 
@@ -789,16 +862,28 @@ def gen_oracle_case(rng, seed):
         defs = [["mul", ["var", 0], ["var", 1]]]
     else:
         defs = mc.gen_defs(rng, k, allow_div=False)
-    sources = [mc.gen_source(rng, repeated_ok=False) for _ in range(k)]
+    sources, _ = mc.gen_sources(rng, k, repeated_ok=False)
     if shape in ("square", "negsquare"):
         sources = [{"kind": "single", "value": fx(rng.choice([0.0, 0.25, 0.5])), "error": fx(1.0)}]
     case = {"seed": seed, "okind": rng.choice(["real", "real", "uniform", "low", "high", "peak"]),
             "g": rng.choice([50, 200, 1000]), "sources": sources, "corr": [], "defs": defs,
-            "method": rng.choice(["global", "own"]), "ops": []}
+            "method": rng.choice(["global", "own", "global-str", "own-str"]), "ops": [],
+            "dirty": rng.random() < 0.3, "pre_read": rng.random() < 0.3}
     ops = []
     for _ in range(rng.randint(3, 14)):
         t = rng.choices(["set_conf", "set_range", "use_mode", "use_mean_std", "use_custom", "set_size", "recalc", "samples",
-                         "mutate", "read_value", "reset_size"], weights=[5, 4, 6, 3, 3, 4, 2, 3, 3, 2, 1])[0]
+                         "mutate", "read_value", "reset_size", "set_gsize", "size_pattern"],
+                        weights=[5, 4, 6, 3, 3, 4, 2, 3, 3, 2, 2, 2, 2])[0]
+        if t == "set_gsize":
+            ops.append([t, rng.choice([20, 50, 80, 200, 1000])])
+            if rng.random() < 0.3:
+                ops.append(["sibling"])
+            continue
+        if t == "size_pattern":     # un-pin (or pin), change the global size, draw again
+            first = rng.choice([["reset_size"], ["set_size", ["int", rng.choice([case["g"], 30, 64])]], ["set_size", ["int", 0]]])
+            ops += [first, ["set_gsize", rng.choice([g_ for g_ in (20, 50, 80, 200) if g_ != case["g"]])],
+                    rng.choice([["recalc"], ["recalc"], ["reset_size"]])]
+            continue
         if t == "set_conf":
             ops.append([t, rng.choice(VALID_CONF + [["float", fx(0.9)], ["float", fx(0.95)]])
                         if rng.random() < 0.85 else rng.choice(BAD_CONF)])
